@@ -147,7 +147,9 @@ def gen_noise(rng):
         elif k == 5:
             a.append(["unknown", "frobnicate"])
         elif k == 6:
-            a.append(["exec", "OP_NOSUCHOP"])                                                        # rejected before execution
+            # rejected before execution (an unknown word first, in the middle, or last): nothing at all may happen
+            a.append(rng.choice([["exec", "OP_NOSUCHOP"], ["exec", "7", "8", "OP_BOGUS"], ["exec", "7", "OP_TOALTSTACK", "0x08"],
+                                 ["exec", "0", "OP_IF", "if"], ["exec", "OP_1", "OP_BOGUS", "OP_2"]]))
         elif k == 7:
             a.append(rng.choice([["tf", "sha256", "0x01"], ["tf", "bech32-encode", "0x" + "11" * 20], ["tf", "addr-to-scriptpubkey", "1BvBMSEYstWetqTFn5Au4m4GFg7xJaNVN2"],
                                  ["tf", "verify-sig", "0x" + "22" * 32, "0x02" + "33" * 32, "0x3006020101020101"], ["tf", "combine-pubkeys", "0x02" + "79be667ef9dcbbac55a06295ce870b07029bfcdb2dce28d959f2815b16f81798", "0x02" + "79be667ef9dcbbac55a06295ce870b07029bfcdb2dce28d959f2815b16f81798"],
@@ -302,6 +304,9 @@ def evaluate_splice(ctx, scn):
     run = ctx.run(w)
     ev.hashes.append(run.hash())
     ev.counters["term:" + run.classify()[0]] += 1
+    if run.classify()[0] == "overflow":
+        ev.counters["inconclusive_log_overflow"] += 1
+        return ev
     cmds = session.parse_session(w, run, items)
     net = 0
     tainted = False
